@@ -1,6 +1,8 @@
 package rules
 
 import (
+	"strconv"
+	"regexp"
 	"fmt"
 	"go/token"
 	"os"
@@ -153,6 +155,9 @@ func runC03(c *Ctx) {
 		// ---- R4 ----
 		b := &skel.Builder{Pkg: sp, Family: c03Family}
 		tree := safeSkeleton(b, f)
+		if os.Getenv("C03_SK") != "" {
+			fmt.Printf("SKEL %s: %s\n\n", f.Name(), tree)
+		}
 		var missing []string
 		for _, a := range s.atoms {
 			if !strings.Contains(tree, a) {
@@ -208,6 +213,7 @@ func runC03(c *Ctx) {
 
 	// ---- R3 rune classes ----
 	c03Runes(c)
+	c03LabelTables(c, sp)
 }
 
 func c03Runes(c *Ctx) {
@@ -614,4 +620,171 @@ func reachingErrValues(v ssa.Value, at ssa.Instruction) []ssa.Value {
 	}
 	walk(ld.Block(), ld)
 	return out
+}
+
+// c03LabelTables: the loop-free label validators as decision tables.  The
+// skeleton of each is evaluated over an abstraction of the label — its length
+// class, whether it starts with '_', and the verdicts of the validators it
+// delegates to (free Booleans, forced false where the delegated text is empty)
+// — and must accept exactly what the grammar says.
+func c03LabelTables(c *Ctx, sp *ssa.Package) {
+	c.L.Floor("C03.label-table", 3)
+	type input struct {
+		l      int64
+		under  bool // first byte is '_'
+		opaque map[string]bool
+	}
+	reLen := regexp.MustCompile(`^\(len\(p0\) (==|!=|<|<=|>|>=) (\d+)\)$`)
+	reFirst := regexp.MustCompile(`^\(p0\[0\] (==|!=) 95\)$`)
+	cmp := func(op string, a, b int64) bool {
+		switch op {
+		case "==":
+			return a == b
+		case "!=":
+			return a != b
+		case "<":
+			return a < b
+		case "<=":
+			return a <= b
+		case ">":
+			return a > b
+		}
+		return a >= b
+	}
+	var atomsOf func(t *skel.Tree, into map[string]bool)
+	atomsOf = func(t *skel.Tree, into map[string]bool) {
+		if t == nil || t.Leaf != "" {
+			return
+		}
+		if t.Atom != "" {
+			into[t.Atom] = true
+		}
+		atomsOf(t.Yes, into)
+		atomsOf(t.No, into)
+	}
+	isOpaque := func(a string) bool {
+		return strings.HasPrefix(a, "accepts(") || strings.HasPrefix(a, "hasValidTLDChars(") || strings.HasPrefix(a, "IsValidHost")
+	}
+	evalAtom := func(a string, in input) (bool, bool) {
+		switch {
+		case a == `(p0 == "")`:
+			return in.l == 0, true
+		case a == `(p0 != "")`:
+			return in.l != 0, true
+		case a == `(p0 == "_")`:
+			return in.l == 1 && in.under, true
+		case a == `(p0 != "_")`:
+			return !(in.l == 1 && in.under), true
+		}
+		if m := reFirst.FindStringSubmatch(a); m != nil {
+			return (m[1] == "==") == in.under, in.l > 0
+		}
+		if m := reLen.FindStringSubmatch(a); m != nil {
+			k, _ := strconv.ParseInt(m[2], 10, 64)
+			return cmp(m[1], in.l, k), true
+		}
+		if isOpaque(a) {
+			return in.opaque[a], true
+		}
+		return false, false
+	}
+	var evalTree func(t *skel.Tree, in input) (string, string)
+	evalTree = func(t *skel.Tree, in input) (string, string) {
+		if t == nil {
+			return "", "empty skeleton"
+		}
+		if t.Leaf != "" {
+			return t.Leaf, ""
+		}
+		if t.Loop != "" {
+			return "", "a loop"
+		}
+		v, ok := evalAtom(t.Atom, in)
+		if !ok {
+			return "", "an atom outside the label abstraction: " + t.Atom
+		}
+		if v {
+			return evalTree(t.Yes, in)
+		}
+		return evalTree(t.No, in)
+	}
+	specs := []struct {
+		fn   string
+		want func(in input) bool
+		desc string
+	}{
+		{"ValidateDomainNameLabel", func(in input) bool { return in.l >= 1 && in.l <= 63 }, "1 <= len <= 63"},
+		{"ValidateTLDLabel", func(in input) bool { return in.opaque["accepts(HostLabel,p0)"] && in.opaque["hasValidTLDChars(p0)"] }, "hostname label with a non-digit"},
+		{"ValidateServiceNameLabel", func(in input) bool {
+			return in.l >= 2 && in.l <= 16 && in.under && in.opaque["accepts(HostLabel,p0[1:])"]
+		}, "'_' + hostname label, 2..16 bytes"},
+	}
+	for _, spc := range specs {
+		f := c.fn("netutil", spc.fn)
+		if f == nil {
+			continue
+		}
+		b := &skel.Builder{Pkg: sp, Family: c03Family}
+		var tree *skel.Tree
+		func() {
+			defer func() { recover() }()
+			tree = b.Skeleton(f)
+		}()
+		what := spc.fn + " accepts exactly: " + spc.desc
+		if tree == nil {
+			c.undecided("C03.label-table", f, what, nil, "no skeleton")
+			continue
+		}
+		atoms := map[string]bool{}
+		atomsOf(tree, atoms)
+		var ops []string
+		for a := range atoms {
+			if isOpaque(a) {
+				ops = append(ops, a)
+			}
+		}
+		sort.Strings(ops)
+		bad, undec := "", ""
+		n := 0
+		for _, l := range []int64{0, 1, 2, 3, 15, 16, 17, 62, 63, 64, 65} {
+			for _, under := range []bool{false, true} {
+				if l == 0 && under {
+					continue
+				}
+				for m := 0; m < 1<<uint(len(ops)); m++ {
+					in := input{l: l, under: under, opaque: map[string]bool{}}
+					skip := false
+					for i, a := range ops {
+						v := m&(1<<uint(i)) != 0
+						// a delegated validator cannot accept an empty text
+						if v && ((l == 0 && strings.HasSuffix(a, ",p0)")) || (l <= 1 && strings.HasSuffix(a, ",p0[1:])")) || (l == 0 && strings.HasSuffix(a, "(p0)"))) {
+							skip = true
+						}
+						// nor one longer than a label
+						if v && strings.HasPrefix(a, "accepts(") && strings.HasSuffix(a, ",p0)") && l > 63 {
+							skip = true
+						}
+						in.opaque[a] = v
+					}
+					if skip {
+						continue
+					}
+					got, why := evalTree(tree, in)
+					if why != "" {
+						undec = why
+						break
+					}
+					n++
+					if want := spc.want(in); (got == "ACC") != want && bad == "" {
+						bad = sprintf("for len %d, leading '_' %v, delegates %v the validator says %s, the grammar %v", l, under, in.opaque, got, want)
+					}
+				}
+			}
+		}
+		if undec != "" {
+			c.undecided("C03.label-table", f, what, nil, undec)
+			continue
+		}
+		c.check(bad == "", "C03.label-table", f, what, nil, sprintf("%d abstract inputs evaluated on the decision skeleton. %s", n, bad))
+	}
 }
